@@ -1,5 +1,6 @@
 import Tw.Model.Packet6
 import Tw.Proofs.Packet6Headers
+import Tw.Proofs.Packet6Write
 import Tw.Model.Packet7
 import Tw.Proofs.Packet7Headers
 
@@ -66,7 +67,42 @@ theorem v6_chunkHeaderVital_pack_unpack_canonical (b0 b1 b2 : Nat) (h0 : b0 < 25
     chunkHeaderVitalPack (chunkHeaderVitalUnpackWarn b0 b1 b2).1 = some (b0, b1, b2) :=
   chv_pack_unpack_canonical b0 b1 b2 h0 h1 h2 hc
 
+/-- **0.6 whole-packet round trip.**  For every packet value satisfying `Tw.Packet6.Valid`
+(connless payload within the writer's limit; ack < 1024, num_chunks < 256, payload plus token at
+most `MAX_PACKETSIZE - HEADER_SIZE`; close reason NUL-free and at most 127 bytes) `Packet::write` into
+any buffer of at least `MAX_PACKETSIZE` bytes succeeds with at most `MAX_PACKETSIZE` bytes, and
+`Packet::read` of these bytes with `token_hint = Some(has_token)` returns the same value with
+`Tw.Packet6.expectedWarnings` (`[]`, or `[ChunksNoChunks]` exactly for an empty chunk packet without
+resend request) — irrespective of the branch (compressed / plain) the writer took.
+`HuffmanRoundTrip t` is discharged for the built-in table by C07
+(`Tw.Huffman.decompress_compress _ Tw.Huffman.wellFormed_table false`). -/
+theorem v6_write_read_roundtrip (t : Tw.Huffman.Table) (hrt : Tw.Packet6.HuffmanRoundTrip t)
+    (p : Tw.Packet6.Packet) (hv : Tw.Packet6.Valid p) (cap scap : Nat)
+    (hcap : Tw.Gen.Packet6.MAX_PACKETSIZE ≤ cap) (hs : Tw.Gen.Packet6.MAX_PACKETSIZE ≤ scap) :
+    ∃ bs, Tw.Packet6.write t p cap = .ok bs ∧ bs.length ≤ Tw.Gen.Packet6.MAX_PACKETSIZE ∧
+      ∃ r, Tw.Packet6.read t bs (some p.hasToken) (some scap) = .ok r ∧ r.pkt = p ∧
+        r.warns = Tw.Packet6.expectedWarnings p :=
+  Tw.Packet6.write_read_roundtrip t hrt p hv cap scap hcap hs
+
+/-- The connected-packet limit the API documents (`MAX_PAYLOAD` bytes of chunk data plus one vital chunk
+header, with a token) is inside `Valid`. -/
+theorem v6_max_payload_is_valid (ack : Nat) (tok : Option Token) (rr : Bool) (nc : Nat)
+    (payload : List UInt8) (ha : ack < 1024) (hn : nc < 256)
+    (hl : payload.length ≤ Tw.Gen.Packet6.MAX_PAYLOAD + Tw.Gen.Packet6.CHUNK_HEADER_SIZE_VITAL) :
+    Tw.Packet6.Valid (.connected ack tok (.chunks rr nc payload)) := by
+  refine ⟨ha, hn, ?_⟩
+  have h1 : Tw.Gen.Packet6.MAX_PAYLOAD = 1390 := by decide
+  have h2 : Tw.Gen.Packet6.CHUNK_HEADER_SIZE_VITAL = 3 := by decide
+  have h3 : Tw.Gen.Packet6.TOKEN_SIZE = 4 := by decide
+  have h4 : Tw.Gen.Packet6.READ_PAYLOAD_LIMIT = 1397 := by decide
+  split <;> omega
+
 -- non-vacuity
+example : Tw.Packet6.Valid (.connected 1023 (some ⟨1, 2, 3, 4⟩) (.control (.close [0x62, 0x79, 0x65]))) := by
+  refine ⟨by decide, by decide, ?_⟩
+  intro b hb
+  simp only [List.mem_cons, List.not_mem_nil, or_false] at hb
+  rcases hb with rfl | rfl | rfl <;> decide
 example : (PacketHeader.mk 15 1023 255).pack = some (243, 255, 255) := by decide
 example : chunkHeaderVitalUnpackWarn 0x40 0x70 0xcf = ({ h := { flags := 1, size := 0 }, sequence := 463 }, []) := by
   decide
